@@ -4,4 +4,4 @@ Require Import ExtrOcamlBasic.
 Require Import SquidV.Bytes SquidV.SplayModel SquidV.MemhdrModel SquidV.gen.Memhdr_gen.
 Extraction "m_memhdr.ml"
   sm_page_size mem_node_data_capacity lenN inorder
-  mh_empty mh_step mh_run mh_write mh_copy mh_free mh_hasContig mh_endOffset mh_lowestOffset.
+  mh_empty abnormal mh_step mh_run mh_write mh_copy mh_free mh_hasContig mh_endOffset mh_lowestOffset.
